@@ -27,6 +27,7 @@ EXPLANATION = (
     "and the bottleneck DP takes min(predecessor value, edge value), updates value and predecessor together and reports the value of the path it reconstructs.  NOT decided: that the answers equal a direct graph search, "
     "antichain maximality, peeling arithmetic."
     ' (R7, round 3) non-integral weights reach the exact network simplex as fractions.'
+    " (R1c, round 4) module-level functions that take the caller's graph are not memoised."
 )
 DECIDED = ["caches are written only by their owner, keyed by the query", "queries have no side effect on shared substrate state; cached results are never mutated",
            "substrate graphs are frozen after construction"]
